@@ -64,6 +64,16 @@ def _vector_to_column(fi: FuncInfo, call: ast.Call) -> bool:
     return False
 
 
+def _receiver_shape_form(key: str) -> str:
+    """`E.reshape((E.size, 1))` with the SAME expression E in both places reads `<X>.reshape((<X>.size, 1))` whatever E is spelled like
+    (a reviewed exception for such a site is about the shape of the call, not about how its receiver was computed)."""
+    import re
+    m = re.fullmatch(r"(.*)\.reshape\(\((.*)\.(size|shape\[0\]), 1\)\)", key, flags=re.S)
+    if m and m.group(1) == m.group(2):
+        return f"<X>.reshape((<X>.{m.group(3)}, 1))"
+    return ""
+
+
 def eo1(prog: Program, res: Result, select: Callable[[FuncInfo], bool]) -> None:
     """Explicit-order discipline on reshape-family sites."""
     f = facts(prog)
@@ -94,7 +104,8 @@ def eo1(prog: Program, res: Result, select: Callable[[FuncInfo], bool]) -> None:
             else:
                 res.undecided("EO-1", s.fi.short, desc, where, f"order expression {ast.unparse(s.order_expr)} not resolvable")
         else:
-            ex = [x for x in f["exceptions"] if x["function"] == s.fi.short and (x["key"] is None or _strip_locals(x["key"]) == _strip_locals(s.key))]
+            ex = [x for x in f["exceptions"] if x["function"] == s.fi.short and (x["key"] is None or _strip_locals(x["key"]) == _strip_locals(s.key)
+                                                                                 or _receiver_shape_form(x["key"]) == _receiver_shape_form(s.key) != "")]
             if not ex and _vector_to_column(s.fi, s.call):
                 res.ok("EO-1", s.fi.short, desc, where, "reshape of X to (len(X), 1): only a vector fits, so the order is irrelevant", nontrivial=False)
             elif ex:
